@@ -2,6 +2,7 @@
 //! and prints canonical observations. One sub-command per engine.
 mod tables;
 mod validate;
+mod vgen;
 
 fn main() {
     let args: Vec<String> = std::env::args().collect();
